@@ -2,6 +2,7 @@
 from guards import edge_forms, lin
 from terms import origin, show, rvalue_origin, control_deps, mentions
 from unord import Unord
+from facts import const_value
 
 SUBS = {"Sub", "SubWithOverflow", "SubUnchecked"}
 
@@ -149,3 +150,137 @@ def proportional(fn, bound):
     has_len = any(x[0] == "call" and x[1].split("::")[-1] in ("len", "count") for x in subs)
     params = [x for x in subs if x[0] in ("param", "upvar")]
     return bool(params) and not has_len
+
+
+# ---------------------------------------------------------------------------------------------------------------
+# LOOP-PROGRESS: hand-written `loop`/`while` loops (no iterator drives them) make progress on every cycle
+
+SHRINKERS = ("remove", "pop", "pop_front", "pop_back", "swap_remove", "truncate", "drain", "split_off", "clear")
+
+
+def natural_loops(fn):
+    """[(head, body blocks, back-edge sources)] on normal edges"""
+    heads = {}
+    for b in range(len(fn.blocks)):
+        if fn.is_cleanup(b):
+            continue
+        for s in fn.succ(b):
+            if fn.dominates(s, b):
+                heads.setdefault(s, []).append(b)
+    preds = fn.preds()
+    out = []
+    for h, backs in sorted(heads.items()):
+        body = {h}
+        st = list(backs)
+        while st:
+            x = st.pop()
+            if x in body:
+                continue
+            body.add(x)
+            st += [p for p in preds[x] if not fn.is_cleanup(p)]
+        out.append((h, body, backs))
+    return out
+
+
+def hand_written_loops(fn):
+    """natural loops that are neither await polling loops, nor macro generated, nor driven by an iterator"""
+    out = []
+    for (h, body, backs) in natural_loops(fn):
+        if any(fn.blocks[b]["term"]["k"] == "yield" for b in body):
+            continue
+        calls = [c for c in fn.calls() if c.bb in body and not fn.is_cleanup(c.bb)]
+        if calls and all(c.from_expansion for c in calls):
+            continue
+        if any((c.path or "").endswith("Iterator::next") or (c.method or "") == "next" for c in calls):
+            continue
+        out.append((h, body, backs))
+    return out
+
+
+def _const_steps(fn, body):
+    """{block: [local]} for stores `L = L ± c` (c a non-zero constant) inside `body`, directly or through the
+    checked-arithmetic temporary (`t = AddWithOverflow(L, c); assert; L = move t.0`)"""
+    tmps = {}
+    out = {}
+
+    def cnz(o):
+        return o.get("k") == "const" and isinstance(const_value(o), int) and const_value(o) != 0
+
+    for b in sorted(body):
+        for s in fn.blocks[b]["stmts"]:
+            if s["k"] != "assign" or s["lhs"].get("p"):
+                continue
+            rv = s["rv"]
+            if rv["k"] == "bin" and any(rv["op"].startswith(x) for x in ("Add", "Sub")):
+                a, c = rv["ops"]
+                src = None
+                if "l" in a and not a.get("p") and cnz(c):
+                    src = a["l"]
+                elif rv["op"].startswith("Add") and "l" in c and not c.get("p") and cnz(a):
+                    src = c["l"]
+                if src is not None:
+                    if s["lhs"]["l"] == src:
+                        out.setdefault(b, []).append(src)
+                    else:
+                        tmps[s["lhs"]["l"]] = src
+    for b in sorted(body):
+        for s in fn.blocks[b]["stmts"]:
+            if s["k"] == "assign" and not s["lhs"].get("p") and s["rv"]["k"] == "use":
+                o = s["rv"]["ops"][0]
+                if "l" in o and o["l"] in tmps and o.get("p", []) in ([], [".0"]) and tmps[o["l"]] == s["lhs"]["l"]:
+                    out.setdefault(b, []).append(s["lhs"]["l"])
+    return out
+
+
+def loop_progress(fn, h, body):
+    """returns (ok, progress description, offending cycle blocks).  A cycle through the head must contain
+    (P1) a constant non-zero step of a loop-carried local on which an exit test of the loop depends, or
+    (P2) a shrinking call (remove/pop/...) on a collection on which an exit test depends."""
+    # exit tests: switches inside the body with a successor outside the body (and calls whose unwind we ignore)
+    exit_locals = set()
+    for b in body:
+        t = fn.blocks[b]["term"]
+        if t["k"] == "switch" and any(s not in body for s in fn.succ(b)):
+            if "l" in t["discr"]:
+                exit_locals |= backward_locals(fn, t["discr"])
+    prog_blocks = {}
+    for b, ls in _const_steps(fn, body).items():
+        for l in ls:
+            if l in exit_locals:
+                prog_blocks.setdefault(b, []).append("%s += c" % (fn.local_name(l) or "_%d" % l))
+    for b in body:
+        t = fn.blocks[b]["term"]
+        if t["k"] == "call":
+            f = t["func"].get("fn") or {}
+            m = f.get("method") or (f.get("path") or "").split("::")[-1]
+            if m in SHRINKERS and t.get("args") and "l" in t["args"][0]:
+                if backward_locals(fn, t["args"][0]) & exit_locals:
+                    prog_blocks.setdefault(b, []).append("%s()" % m)
+    # a cycle through h that avoids every progress block?
+    seen = set()
+    st = [s for s in fn.succ(h) if s in body] if h not in prog_blocks else []
+    parent = {}
+    bad = None
+    while st:
+        x = st.pop()
+        if x == h:
+            bad = True
+            break
+        if x in seen or x in prog_blocks or x not in body:
+            continue
+        seen.add(x)
+        for s in fn.succ(x):
+            if s in body:
+                parent.setdefault(s, x)
+                st.append(s)
+    desc = sorted({d for v in prog_blocks.values() for d in v})
+    if bad:
+        cyc = []
+        x = h
+        for _ in range(60):
+            x = parent.get(x)
+            if x is None or x in cyc:
+                break
+            cyc.append(x)
+        return False, desc, list(reversed(cyc))
+    return True, desc, []
